@@ -309,7 +309,7 @@ func atomicUse(fa *ssa.FieldAddr) bool {
 			}
 			return false
 		}
-		if !strings.HasPrefix(calleeQ(&call.Call), "sync/atomic.") {
+		if q := calleeQ(&call.Call); !strings.HasPrefix(q, "sync/atomic.") && !strings.HasPrefix(q, "(*sync/atomic.") {
 			return false
 		}
 	}
